@@ -119,7 +119,7 @@ def run_property(pid, tier, repo, seed):
         for h in kr['harnesses']:
             tags = [t for t in h['tags'] if t.startswith(pid + '.')]
             if h['status'] == 'undecided':
-                tool_limit = 'timed out' in h.get('reason', '') or 'tool limit' in h.get('reason', '') or 'no verdict' in h.get('reason', '')
+                tool_limit = any(k in h.get('reason', '') for k in ('timed out', 'tool limit', 'tool-limit', 'no verdict', 'out of memory'))
                 if h.get('optional') and tool_limit:
                     # harness known to sit at the edge of what CBMC finishes here: a time-out is recorded, not counted, and
                     # does not make the check fail (anything else - lost anchor, non-reproducing counterexample - still does)
